@@ -200,8 +200,9 @@ def p_c01(run):
     cfgs = ("native", "w32", "neutral") if run.tier == "quick" else tuple(C.CONFIGS)
     kernel_tie(run, ("native", "w32", "neutral") if run.tier == "quick" else ("native", "w32", "neutral", "neutral32"))
     import whole as W
-    if run.tier == "quick": whole_tie(run, ("native", "w32"), W.QUICK_BLK)
-    else: whole_tie(run, ("native", "w32", "neutral", "neutral32"), W.BLK_PARTS)
+    prim = ["key128_sk_16", "key128_sk_32", "key128_sk_48", "key64_sk_8", "key64_sk_16", "key64_sk_24"]
+    if run.tier == "quick": whole_tie(run, ("native", "w32"), W.QUICK_BLK + prim)
+    else: whole_tie(run, ("native", "w32", "neutral", "neutral32"), W.BLK_PARTS + prim)
     run_scripts(run, G.gen_c01(run.rng, run.tier), std_variants(run, cfgs))
 def p_c02(run):
     cfgs = ("native", "w32", "neutral") if run.tier == "quick" else tuple(C.CONFIGS)
@@ -227,6 +228,9 @@ def p_c03(run):
 def p_c04(run):
     cfgs = ("native", "w32") if run.tier == "quick" else ("native", "w32", "noua", "nosimd", "neutral", "neutral32")
     kernel_tie(run, ("native", "w32") if run.tier == "quick" else ("native", "w32", "neutral", "neutral32"))
+    import whole as W
+    q = run.tier == "quick"
+    whole_tie(run, ("native", "w32") if q else ("native", "w32", "neutral", "neutral32"), W.parts_tweak("128", q) + W.parts_tweak("64", q))
     run_scripts(run, G.gen_c04(run.rng, run.tier), std_variants(run, cfgs))
 def p_c05(run):
     cfgs = ("native",) if run.tier == "quick" else ("native", "w32", "noua", "w32noua")
@@ -308,6 +312,10 @@ def p_c10(run):
     vs = std_variants(run, cfgs)
     if run.tier != "quick":
         vs.append(C.build_variant(run.work, "native", "gcc", "-O1", "asan"))
+    import whole as W
+    q = run.tier == "quick"
+    whole_tie(run, ("native", "w32") if q else ("native", "w32", "neutral", "neutral32"),
+              [p_ for p_ in W.key_parts("128", q) + W.key_parts("64", q) if "_st_" not in p_])
     run_scripts(run, G.gen_c10(run.rng, run.tier), vs)
 
 def p_c13(run):
